@@ -27,6 +27,9 @@
   C13-HELPERS  the ``forloop`` / ``tablerowloop`` helper properties are the documented formulas of
                the running index (index = i+1, rindex = length-i, first = i==0,
                last = i==length-1, col/row stepping by ``ncols``).
+  C13-ITER     every exit of ``LoopExpression._to_iter`` returns an iterator together with exactly its
+               number of items, and a scalar is treated as one item only where it is known to be
+               non-empty (an empty string is an empty collection: the else block is rendered).
   C13-BLANK    the loop nodes derive ``blank`` from every block they render (body and else), so
                blank-block suppression never discards the else output (engine shared with C10/C18).
 Not decided: which items a particular collection/limit/offset yields (value level).
@@ -66,7 +69,7 @@ TABLEROW_FORMULAS = {
 
 def run(repo: Repo) -> Result:
     res = Result(PID)
-    res.rules = ["C13-INTERRUPT", "C13-BOUNDS", "C13-NONE", "C13-SHAPE", "C13-BIND", "C13-HELPERS", "C13-BLANK"]
+    res.rules = ["C13-INTERRUPT", "C13-BOUNDS", "C13-NONE", "C13-SHAPE", "C13-BIND", "C13-HELPERS", "C13-BLANK", "C13-ITER"]
     res.explanation = "who raises/catches the loop interrupts; sign facts of the islice bounds; None-tests of limit/offset; helper formula tables"
     res.assumptions = ["visited items for particular data are value-level"]
 
@@ -397,6 +400,44 @@ def run(repo: Repo) -> Result:
                 reads_ok = cc1 == {f"{p_idx} is None"}
     if not (stores_ok and reads_ok):
         res.add("C13-SHAPE", si.qual, "stopindex", "RenderContext.stopindex must store an index when given one (including 0) and default to 0", si.file, si.line)
+    # ---- C13-ITER: what `_to_iter` hands out -----------------------------------------------------------
+    # Every exit returns an (iterator, length) pair that agree — `iter(X)` with `len(X)`,
+    # `iter(X.items())` with `len(X)`, a list literal with its number of elements — so the
+    # loop helpers (length, rindex, last) describe the items actually visited; and an exit whose
+    # length is a non-zero constant (a scalar treated as one item) is reached only where the
+    # value is known to be non-empty: an empty value has no items, its else block is rendered.
+    from ..guards import canon as _canon_it
+    from ..guards import conditions as _conds_it
+
+    ti = repo.own_method("liquid.builtin.expressions.loop.LoopExpression", "_to_iter")
+    obj_p = [p for p in ti.params() if p != "self"][0]
+    n_ret = 0
+    for st_it, cs_it in _conds_it(ti.node):
+        if not isinstance(st_it, ast.Return) or st_it.value is None:
+            continue
+        n_ret += 1
+        v_it = st_it.value
+        pair_ok = False
+        const_len = None
+        if isinstance(v_it, ast.Tuple) and len(v_it.elts) == 2:
+            it_e, ln_e = v_it.elts
+            if isinstance(it_e, ast.Call) and is_name(it_e.func, "iter") and len(it_e.args) == 1:
+                src = it_e.args[0]
+                if isinstance(src, (ast.List, ast.Tuple)) and isinstance(ln_e, ast.Constant) and ln_e.value == len(src.elts):
+                    pair_ok = True
+                    const_len = len(src.elts)
+                elif isinstance(ln_e, ast.Call) and is_name(ln_e.func, "len") and len(ln_e.args) == 1:
+                    base = src.func.value if isinstance(src, ast.Call) and isinstance(src.func, ast.Attribute) and src.func.attr in ("items", "keys", "values") and not src.args else src
+                    pair_ok = text(base) == text(ln_e.args[0])
+        res.ob(f"iter:{ti.qual}:{st_it.lineno}")
+        if not pair_ok:
+            res.add("C13-ITER", ti.qual, f"pair:{text(v_it)[:40]}", f"{ti.qual} returns `{text(v_it)[:70]}`: the length is not the number of items of the iterator it is returned with (forloop.length / rindex / last and the else decision would describe other items than the ones visited)", ti.file, st_it.lineno)
+        elif const_len:
+            have = {_canon_it(c) for c in cs_it}
+            if not ({obj_p, f"len({obj_p}) > 0", f"len({obj_p}) != 0", f"{obj_p} != ''"} & have):
+                res.add("C13-ITER", ti.qual, "scalar-item-of-empty-value", f"{ti.qual} returns {const_len} item(s) (`{text(v_it)[:50]}`) on a path where `{obj_p}` is not known to be non-empty (path conditions: {sorted(have)}): a loop over an empty string visits one phantom item and never renders its else block", ti.file, st_it.lineno)
+    if n_ret < 4:
+        raise AnchorMissing(f"{ti.qual}: only {n_ret} returns found; re-derive C13-ITER")
     # ---- C13-BLANK: the loop body and the else block are both accounted for in `blank` -------------
     # "the else block is rendered iff the sequence is empty" also inside a container that is
     # otherwise blank: the loop nodes' blank flag must be derived from every block they render
